@@ -1,6 +1,7 @@
-package fat12
+package fat16
 
 import (
+	"encoding/binary"
 	"io"
 	"runtime"
 
@@ -68,30 +69,7 @@ func c18AllocEnd(t0, limit uint64) {
 	}
 }
 
-// VP_C18_fat12_bootsector: msDosBootSectorFromBytes on an arbitrary 512-byte sector.
-func VP_C18_fat12_bootsector() {
-	b := vp.Bytes("sector", 512)
-	vp.Unwind(40)
-	vp.NoPanic()
-	bs, err := msDosBootSectorFromBytes(b)
-	vp.AllowPanic()
-	if err == nil {
-		vp.Assert(bs != nil, "boot sector returned")
-		vp.Assert(bs.biosParameterBlock != nil, "BPB returned")
-		vp.Assert(bs.biosParameterBlock.Dos331BPB.Dos20BPB.BytesPerSector >= 512, "accepted sector size is at least 512")
-		if bs.biosParameterBlock.ExtBootSignature == longEBPB {
-			vp.Assert(len(bs.bootCode) == 512-2-11-51, "long form: boot code is what remains of the sector")
-			vp.Cover("long form accepted")
-		} else {
-			vp.Assert(len(bs.bootCode) == 512-2-11-32, "short form: boot code is what remains of the sector")
-			vp.Cover("short form accepted")
-		}
-	} else {
-		vp.Cover("arbitrary sector rejected")
-	}
-}
-
-// c18ReadGeom: fat12.Read on an image of the given size whose every byte is arbitrary:
+// c18ReadGeom: fat16.Read on an image of the given size whose every byte is arbitrary:
 // no panic, no allocation beyond 2*size+slack elements.
 func c18ReadGeom(size int64) {
 	dev := c18NewDev("img", size)
@@ -101,7 +79,7 @@ func c18ReadGeom(size int64) {
 	vp.AllocLimit(limit)
 	if dev.ByteAt(13) == 0 {
 		// KF-C18-1: sectors per cluster = 0: division by zero in Read
-		vp.KnownPanic("KF-C18-1", "filesystem/fat12.Read)")
+		vp.KnownPanic("KF-C18-1", "filesystem/fat16.Read)")
 	}
 	vp.NoPanic()
 	t0 := c18AllocBegin()
@@ -110,12 +88,33 @@ func c18ReadGeom(size int64) {
 	vp.AllowPanic()
 	if err == nil {
 		vp.Assert(fs != nil, "filesystem returned")
-		vp.Assert(fs.table != nil, "table returned")
-		vp.Cover("arbitrary image accepted as FAT12")
+		vp.Cover("arbitrary image accepted as FAT16")
 	} else {
 		vp.Cover("arbitrary image rejected")
 	}
 }
 
-func VP_C18_fat12_read_64k() { c18ReadGeom(64 << 10) }
-func VP_C18_fat12_read_600() { c18ReadGeom(600) }
+func VP_C18_fat16_read_64k() { c18ReadGeom(64 << 10) }
+func VP_C18_fat16_read_600() { c18ReadGeom(600) }
+
+// c18Table16: 16-bit FATTable.FromBytes for a FAT of n bytes with arbitrary content.
+func c18Table16(n int) {
+	b := vp.Bytes("fat", n)
+	vp.Unwind(n + 4)
+	vp.NoPanic()
+	t := newFat16Table(0xFFF8, uint32(n))
+	t.FromBytes(b)
+	vp.AllowPanic()
+	vp.Assert(int(t.MaxCluster()) == n/2, "highest cluster index = number of whole 16-bit entries")
+	for i := 2; i < n/2; i++ {
+		vp.Assert(t.ClusterValue(uint32(i)) == uint32(binary.LittleEndian.Uint16(b[2*i:])), "entry decoded per the 16-bit layout")
+	}
+	vp.Cover("table decoded")
+}
+
+func VP_C18_fat16_table_0()  { c18Table16(0) }
+func VP_C18_fat16_table_1()  { c18Table16(1) }
+func VP_C18_fat16_table_3()  { c18Table16(3) }
+func VP_C18_fat16_table_4()  { c18Table16(4) }
+func VP_C18_fat16_table_5()  { c18Table16(5) }
+func VP_C18_fat16_table_33() { c18Table16(33) }
